@@ -106,12 +106,60 @@ fn std_hash(gs: &GameState) -> u64 {
 pub struct EqTable {
     map: BTreeMap<([u8; 64], u8, u8), (GameState, u64, u64, Vec<Board>, Pending)>,
     twins: usize,
+    retractions: usize,
+    hashes: BTreeMap<u64, u64>,
 }
 impl EqTable {
     pub fn clear(&mut self) {
         self.map.clear();
         self.twins = 0;
+        self.retractions = 0;
+        self.hashes.clear();
     }
+}
+
+/// The structural half of C10 on a state by itself (no model): type boards disjoint, their union
+/// is `all_pieces`, Gold's board inside it, accessors and square lookup agree with the fields, the
+/// printed diagram shows the same position.  Returns the decoded board.
+pub fn structural_views(gs: &GameState) -> Result<Board, String> {
+    let pb: &PieceBoardState = eng!("piece_board", gs.piece_board());
+    let types = [pb.rabbits, pb.cats, pb.dogs, pb.horses, pb.camels, pb.elephants];
+    let mut union = 0u64;
+    for t in types {
+        if union & t != 0 {
+            return Err(format!("type boards overlap: {:x?}", types));
+        }
+        union |= t;
+    }
+    if union != pb.all_pieces {
+        return Err(format!("union of the type boards {:x}, all_pieces {:x}", union, pb.all_pieces));
+    }
+    if pb.p1_pieces & !pb.all_pieces != 0 {
+        return Err(format!("Gold's board {:x} has squares outside all_pieces {:x}", pb.p1_pieces, pb.all_pieces));
+    }
+    if eng!("player_piece_mask", pb.player_piece_mask(true)) != pb.p1_pieces || eng!("player_piece_mask", pb.player_piece_mask(false)) != pb.all_pieces & !pb.p1_pieces {
+        return Err("player_piece_mask disagrees with the fields".into());
+    }
+    for (pc, k) in PIECES {
+        let t = types[k as usize];
+        if eng!("bits_by_piece_type", pb.bits_by_piece_type(pc)) != t || eng!("bits_for_piece", pb.bits_for_piece(pc, true)) != t & pb.p1_pieces || eng!("bits_for_piece", pb.bits_for_piece(pc, false)) != t & pb.all_pieces & !pb.p1_pieces {
+            return Err("bits_for_piece / bits_by_piece_type disagree with the fields".into());
+        }
+    }
+    let board = decode_board(pb)?;
+    for i in 0..64u8 {
+        let sq = Square::from_index(i);
+        let got = eng!("piece_type_at_square", pb.piece_type_at_square(&sq)).map(kind_of);
+        if got != board[bit_to_sq(i).0 as usize].map(|(_, k)| k) {
+            return Err("piece_type_at_square disagrees with the bitboards".into());
+        }
+    }
+    let side = if gs.is_p1_turn_to_move() { Side::Gold } else { Side::Silver };
+    let printed = eng!("Display", gs.to_string());
+    if printed != diagram(&board, side, gs.move_number() as u128) {
+        return Err(format!("the printed diagram does not show the bitboards' position:\n{}", printed));
+    }
+    Ok(board)
 }
 
 impl World {
@@ -122,12 +170,34 @@ impl World {
     /// start from a diagram in the model's own format; the engine parses the same text
     pub fn from_diagram(ctx: &mut Ctx, text: &str) -> Result<World, Stop> {
         let (board, side, move_no) = parse_diagram(text).ok_or_else(|| Stop::Invalid("start diagram not in the model's format".into()))?;
-        // the engine reads the position in one of the accepted spellings (F4: text written by another tool)
+        // The engine reads the position in another spelling (F4: text written by another tool).
+        // No property says how the reader must understand characters the engine never prints, so a
+        // reader that rejects the spelling or reads a different (consistent) position from it is
+        // not an alarm: the run then starts from the canonical text.  What C10 does say is that
+        // whatever state the reader returns must have consistent views.
         let spelled = respell(text);
+        let mut adopted: Option<GameState> = None;
         if spelled != text {
-            ctx.stats.inc("fault.start_text_respelled");
+            match eng!("GameState::from_str", spelled.parse::<GameState>()) {
+                Err(_) => ctx.stats.inc("fault.respelled_text_rejected"),
+                Ok(g) => match structural_views(&g) {
+                    Err(e) => ctx.check("views.parsed_text", p(10), false, || format!("the state parsed from this diagram has inconsistent views ({}):\n{}", e, spelled)),
+                    Ok(b) => {
+                        let same = b == board && g.is_p1_turn_to_move() == (side == Side::Gold) && g.move_number() as u128 == move_no;
+                        if same {
+                            ctx.stats.inc("fault.start_text_respelled");
+                            adopted = Some(g);
+                        } else {
+                            ctx.stats.inc("fault.respelled_text_read_differently");
+                        }
+                    }
+                },
+            }
         }
-        let parsed = eng!("GameState::from_str", spelled.parse::<GameState>());
+        let parsed = match adopted {
+            Some(g) => Ok(g),
+            None => eng!("GameState::from_str", text.parse::<GameState>()),
+        };
         ctx.check("parse.ok", p(15), parsed.is_ok(), || format!("well-formed diagram rejected: {:?}", parsed.as_ref().err().map(|e| e.to_string())));
         let gs = match parsed {
             Ok(gs) => gs,
@@ -320,6 +390,17 @@ impl World {
                 let with = eng!("board_state_hash_with_push_pull_state", scratch.board_state_hash_with_push_pull_state(pp.push_pull_state()));
                 let th = eng!("transposition_hash", gs.transposition_hash());
                 ctx.check("hash.from_scratch", p(8), with == th, || format!("transposition_hash {:016x} != from-scratch {:016x}", th, with));
+                // how often the injected fault is effective: two different states of this run with one hash
+                if crate::game::collide_build() && eq.hashes.len() < 50_000 {
+                    let fp = state_fp(&board, side_e, step, pend);
+                    match eq.hashes.get(&th) {
+                        Some(other) if *other != fp => ctx.stats.inc("fault.hash_collision_between_visited_states"),
+                        Some(_) => {}
+                        None => {
+                            eq.hashes.insert(th, fp);
+                        }
+                    }
+                }
                 let hist = eng!("hash_history", pp.hash_history());
                 let n = self.lineage_hash.len();
                 let len = hist.len();
@@ -395,6 +476,58 @@ impl World {
                     }
                 } else if eq.map.len() < 20_000 {
                     eq.map.insert(key, (gs.clone(), self.path_fp, std_hash(gs), self.rec.turn_boards.clone(), pend));
+                }
+                // a twin with an unrelated history: after the first step of a turn, the same board,
+                // side and step is built a second way - from the parsed position in which some
+                // other own piece stands one square back, by stepping that piece forward.  "Whatever
+                // sequence of placements, steps, captures and passes produced it": the two must be
+                // equal and hash equal although one may have seen a capture, a repetition or a
+                // long game and the other nothing at all.
+                if step == 1 && ctx.own & p(8) != 0 && eq.retractions < 6 {
+                    let mut cands: Vec<(Sq, Sq, Dir)> = vec![];
+                    for i in 0..64u8 {
+                        let q = Sq(i);
+                        if let Some((s, k)) = board[i as usize] {
+                            if s != side_e {
+                                continue;
+                            }
+                            for d in DIRS {
+                                // the piece came from q2 = q - d by stepping in direction d
+                                let back = match d { Dir::N => Dir::S, Dir::S => Dir::N, Dir::E => Dir::W, Dir::W => Dir::E };
+                                if let Some(q2) = q.step(back) {
+                                    let rabbit_backwards = k == Kind::R && ((s == Side::Gold && d == Dir::S) || (s == Side::Silver && d == Dir::N));
+                                    if board[q2.0 as usize].is_none() && !rabbit_backwards {
+                                        cands.push((q, q2, d));
+                                    }
+                                }
+                            }
+                        }
+                    }
+                    if !cands.is_empty() {
+                        let (q, q2, d) = cands[(self.path_fp as usize) % cands.len()];
+                        let mut prev = board;
+                        prev[q2.0 as usize] = prev[q.0 as usize].take();
+                        if unsupported_on_traps(&prev).is_empty() && !frozen(&prev, q2) {
+                            let text = diagram(&prev, side_e, gs.move_number() as u128);
+                            if let Ok(g0) = eng!("GameState::from_str", text.parse::<GameState>()) {
+                                let want = format!("{}{}", q2.name(), d.letter());
+                                let offered = eng!("valid_actions", g0.valid_actions());
+                                if eng!("is_terminal", g0.is_terminal()).is_none() {
+                                    if let Some(a) = offered.iter().find(|a| a.to_string() == want) {
+                                        let twin = eng!("take_action", g0.take_action(a));
+                                        let same_pos = matches!(decode_board(eng!("piece_board", twin.piece_board())), Ok(b) if b == board)
+                                            && twin.is_play_phase() && eng!("current_step", twin.current_step()) == 1 && twin.is_p1_turn_to_move() == gs.is_p1_turn_to_move();
+                                        if same_pos {
+                                            eq.retractions += 1;
+                                            ctx.stats.inc("c08.twins_with_unrelated_history");
+                                            let same = twin == *gs && std_hash(&twin) == std_hash(gs);
+                                            ctx.check("hash.equal_states_unrelated_history", p(8), same, || format!("the same board, side and step reached from a parsed position by {} is not == / does not hash equal to this state", want));
+                                        }
+                                    }
+                                }
+                            }
+                        }
+                    }
                 }
             }
         } else {
